@@ -46,7 +46,10 @@ Record gen := {
   g_sizes : list Z;                                 (* chromosome k of the genome has number k *)
   g_a : list (list (Z * iv));                       (* chunks of (chromosome number, (start, stop)): the intervals *)
   g_b : list (list (Z * iv));                       (* chunks of the windows whose values are extracted *)
-  g_runs : list (pipeline * pobs * pobs)            (* pipeline, streamed observation, in-memory observation *)
+  g_runs : list (pipeline * pobs * pobs);           (* pipeline, streamed observation, in-memory observation *)
+  g_w : list (list (Z * swin));                     (* chunks of stranded windows (chromosome, ((start, stop), strand)) *)
+  g_sruns : list (spipeline * pobs * pobs);         (* values under the stranded windows / their mean(axis=0) *)
+  g_eruns : list (texpr * query * pobs * pobs)      (* arithmetic expression on the pileup, query, streamed, in-memory *)
 }.
 
 Inductive case := CFlat (f : flat) | CRechunk (r : rechunk) | CGen (g : gen).
@@ -178,6 +181,28 @@ Definition gen_wellformed (g : gen) : bool :=
   forallb (fun c => negb (len c =? 0)) (g_a g) && forallb (fun c => negb (len c =? 0)) (g_b g)
   && negb (len (g_a g) =? 0) && negb (len (g_b g) =? 0) && negb (len (g_sizes g) =? 0).
 
+Definition gen_extra_spec_ok (g : gen) : bool :=
+  let order := arange (len (g_sizes g)) in
+  forallb (fun c => negb (len c =? 0)) (g_w g)
+  && all_true (map (fun '(p, streamed, mem) =>
+        let expected := spec_stranded p order (g_sizes g) (concat (g_a g)) (concat (g_w g)) in
+        obs_matches (g_sizes g) expected mem && obs_matches (g_sizes g) expected streamed) (g_sruns g))
+  && all_true (map (fun '(e, q, streamed, mem) =>
+        let expected := spec_expr e q order (g_sizes g) (concat (g_a g)) (concat (g_b g)) in
+        obs_matches (g_sizes g) expected mem && obs_matches (g_sizes g) expected streamed) (g_eruns g)).
+Definition gen_extra_model_ok (g : gen) : bool :=
+  let order := arange (len (g_sizes g)) in
+  all_true (map (fun '(p, streamed, mem) =>
+        match run_stranded p order (g_sizes g) (g_a g) (g_w g) with
+        | Some v => obs_matches (g_sizes g) v streamed
+        | None => false
+        end) (g_sruns g))
+  && all_true (map (fun '(e, q, streamed, mem) =>
+        match run_expr e q order (g_sizes g) (g_a g) (g_b g) with
+        | Some v => obs_matches (g_sizes g) v streamed
+        | None => false
+        end) (g_eruns g)).
+
 Definition gen_spec_ok (g : gen) : bool :=
   let order := arange (len (g_sizes g)) in
   gen_wellformed g
@@ -193,5 +218,7 @@ Definition gen_model_ok (g : gen) : bool :=
         | None => false
         end) (g_runs g)).
 
-Definition spec_ok (c : case) : bool := match c with CFlat f => flat_spec_ok f | CRechunk r => rechunk_spec_ok r | CGen g => gen_spec_ok g end.
-Definition model_ok (c : case) : bool := match c with CFlat f => flat_model_ok f | CRechunk r => rechunk_model_ok r | CGen g => gen_model_ok g end.
+Definition spec_ok (c : case) : bool :=
+  match c with CFlat f => flat_spec_ok f | CRechunk r => rechunk_spec_ok r | CGen g => gen_spec_ok g && gen_extra_spec_ok g end.
+Definition model_ok (c : case) : bool :=
+  match c with CFlat f => flat_model_ok f | CRechunk r => rechunk_model_ok r | CGen g => gen_model_ok g && gen_extra_model_ok g end.
